@@ -51,6 +51,23 @@ Proof.
 Qed.
 Print Assumptions C17_no_restart.
 
+(** A done state is frozen: from ANY done state (success included, reachable
+    or not), along every history, (status, exception, result) change only by
+    set_result, set_exception(override=True) or the user's set_exception (run
+    directly or by a callback script).  In particular a late
+    set_exception(override=False) or cancel() never turns a success into a
+    failure, nor a failure into another one. *)
+Theorem C17_done_state_frozen : forall E rep ops s, done s = true ->
+  along (fun s0 o r s' => core s' <> core s0 ->
+           (exists v, o = OSetResult v) \/ (exists e, o = OSetException e true) \/
+           (((exists e, o = OUserSetException e) \/ is_announce_op o = true) /\
+            exists l e, s' = cs_run l s0 /\
+                        Forall (fun c => allowed no_locks c = true) l /\
+                        In (CsUserSetException e) l))
+        (run E rep s ops).
+Proof. exact done_frozen_run. Qed.
+Print Assumptions C17_done_state_frozen.
+
 (** The first failure or cancellation recorded is kept: in every reachable
     state with a stored exception, set_exception(override=False), cancel()
     and cancel's critical section change nothing at all. *)
